@@ -282,15 +282,52 @@ func ruleBacktrackUndo(c *Ctx, rule string) {
 			}
 			return true, an.AP(call.Args[1]) == wantKey[in.Parent()]
 		}
+		// an edge of a test of the child's segment: 0 = nothing known, 1 = "wrote nothing", 2 = "wrote its name"
+		edgeKind := func(b *ssa.BasicBlock, succ int) int {
+			if len(b.Instrs) == 0 {
+				return 0
+			}
+			br, ok := b.Instrs[len(b.Instrs)-1].(*ssa.If)
+			if !ok {
+				return 0
+			}
+			key, has := wantKey[b.Parent()]
+			if !has {
+				return 0
+			}
+			no, yes := captureTest(c, br.Cond, strings.TrimSuffix(key, ".Name"))
+			switch succ {
+			case no:
+				return 1
+			case yes:
+				return 2
+			}
+			return 0
+		}
 		if !viaIndex {
-			pathB := mk(func(in ssa.Instruction) bool {
+			qB := mk(func(in ssa.Instruction) bool {
 				_, right := isDelOf(in)
 				return right || isSuccessRet(in)
-			}).Search(start)
+			})
+			qB.BlockEdge = func(b *ssa.BasicBlock, succ int) bool { return edgeKind(b, succ) == 1 }
+			pathB := qB.Search(start)
 			construct := fmt.Sprintf("match:%s/scan/abandon-deletes:%s", segAP, wantKey[f])
 			o := c.R.Add(rule, c.fk(f), construct, c.pos(m), pathB == nil, ifelse(pathB == nil, "the abandoned child's capture is deleted on every path", "after a parameter child matched and its subtree failed, its capture stays in the context: the request reports a parameter of an abandoned alternative"))
 			if pathB != nil {
 				o.Path = c.P.PathString(pathB)
+			}
+		}
+		// (b') the name is deleted only when the child wrote it: a segment whose name is ignored ({-name}) or a
+		// literal one wrote nothing, and a parameter of that name recorded before the search (a matcher's) must stay
+		if !viaIndex {
+			qD := mk(func(in ssa.Instruction) bool { return target(in) || isSuccessRet(in) })
+			qD.Target = func(in ssa.Instruction) bool { _, right := isDelOf(in); return right }
+			qD.BlockEdge = func(b *ssa.BasicBlock, succ int) bool { return edgeKind(b, succ) == 2 }
+			pathD := qD.Search(start)
+			construct := fmt.Sprintf("match:%s/scan/abandon-deletes-only-what-it-wrote:%s", segAP, wantKey[f])
+			o := c.R.Add(rule, c.fk(f), construct, c.pos(m), pathD == nil, ifelse(pathD == nil, "the abandoned child's name is deleted only behind a test (a predicate of the syntax package, false for literal and name-ignoring segments) that it wrote that name", "the abandoned child's name is deleted without knowing that the child wrote it: a child that ignores its name ({-name}) wrote nothing, and a parameter of the same name recorded before the search (by a matcher) is lost"))
+			if pathD != nil {
+				o.Path = c.P.PathString(pathD)
 			}
 		}
 		// (c) no other key is deleted on the abandon paths
